@@ -136,22 +136,25 @@ theorem nextMemoryLocationOr_inv {it : Arguments} {rest : List Char} {k : Nat}
       | err => simp
       | panic s => exact absurd hm (hnp s)
 
-theorem nextLocation_inv {it : Arguments} {rest : List Char} {k : Nat} (h : Inv it rest k) :
-    (firstWord rest = [] → it.nextLocation = .err) ∧
+theorem nextLocationOr_inv {it : Arguments} {rest : List Char} {k : Nat} (h : Inv it rest k)
+    (d : Option Loc) :
+    (firstWord rest = [] → it.nextLocationOr d =
+        match d with | some l => .ok l it | none => .err) ∧
     (firstWord rest ≠ [] →
-      (locArg (firstWord rest) = none → it.nextLocation = .err) ∧
-      (∀ l, locArg (firstWord rest) = some l → ∃ it', it.nextLocation = .ok l it' ∧
+      (locArg (firstWord rest) = none → it.nextLocationOr d = .err) ∧
+      (∀ l, locArg (firstWord rest) = some l → ∃ it', it.nextLocationOr d = .ok l it' ∧
           ArgsView it' (afterWord rest) ∧ it'.argCount = k + 1)) := by
   have ha := nextArgumentStr_inv h
   constructor
   · intro hw
-    simp only [Arguments.nextLocation, ha.1 hw]
+    simp only [Arguments.nextLocationOr, ha.1 hw]
+    cases d <;> rfl
   · intro hw
     obtain ⟨it', h1, h2, h3⟩ := ha.2 hw
     generalize firstWord rest = t at *
     have hnp := tryParseLoc_noPanic t
     have hcl := tryParseLoc_collapse t
-    simp only [Arguments.nextLocation, h1]
+    simp only [Arguments.nextLocationOr, h1]
     cases hm : tryParseLoc t with
     | ok l =>
       rw [hm] at hcl
@@ -246,11 +249,16 @@ theorem parseArguments_eq {it : Arguments} {rest : List Char} (h : Inv it rest 0
         exact finish_eq (h.after hv hc (by omega)) _
   | print =>
     simp only [parseArguments, arguments]
-    have hm := nextLocation_inv h
+    have hm := nextLocationOr_inv h (some (.mem (.pcOffset 0)))
     by_cases hw : firstWord rest = []
-    · have : locArg (firstWord rest) = none := by rw [hw]; rfl
-      simp [hm.1 hw, this]
-    · obtain ⟨h1, h2⟩ := hm.2 hw
+    · have hn : noMoreWords rest = true := by simp [noMoreWords, hw]
+      simp only [Arguments.nextLocationOrDefault, hm.1 hw, hn, if_true]
+      have := finish_eq h (.print (.mem (.pcOffset 0)))
+      simp only [this, done, hn, if_true]
+    · have hn : noMoreWords rest = false := by simp [noMoreWords, hw]
+      simp only [hn, Bool.false_eq_true, if_false]
+      obtain ⟨h1, h2⟩ := hm.2 hw
+      unfold Arguments.nextLocationOrDefault
       cases hl : locArg (firstWord rest) with
       | none => simp [h1 hl]
       | some l =>
@@ -258,8 +266,8 @@ theorem parseArguments_eq {it : Arguments} {rest : List Char} (h : Inv it rest 0
         simp only [e]
         exact finish_eq (h.after hv hc (by omega)) _
   | move =>
-    simp only [parseArguments, arguments]
-    have hm := nextLocation_inv h
+    simp only [parseArguments, arguments, Arguments.nextLocation]
+    have hm := nextLocationOr_inv h none
     by_cases hw : firstWord rest = []
     · have : locArg (firstWord rest) = none := by rw [hw]; rfl
       simp [hm.1 hw, this]
